@@ -154,8 +154,13 @@ pub fn gen_object(rng: &mut Rng, enc: Enc, o: &GenOpts) -> (ObjSpec, ObjModel) {
             let mut vm = symver::gen_model(rng, 5, 4, 5);
             vm.versym.resize(names.len(), 1);
             let scattered = rng.chance(1, 3);
-            let vb = symver::emit(enc, &vm, rng, scattered);
+            let split = rng.chance(1, 3);
+            let vb = symver::emit_opt(enc, &vm, rng, scattered, split);
             let verstr = spec.add(Sec::new(b".gnu.verstr", k::SHT_STRTAB, vb.strtab.clone()));
+            let defstr = match &vb.strtab_def {
+                Some(t) => spec.add(Sec::new(b".gnu.defstr", k::SHT_STRTAB, t.clone())),
+                None => verstr,
+            };
             let mut vs = Sec::new(b".gnu.version", k::SHT_GNU_VERSYM, vb.versym.clone());
             vs.link = dynsym_idx as u32;
             vs.entsize = 2;
@@ -169,7 +174,7 @@ pub fn gen_object(rng: &mut Rng, enc: Enc, o: &GenOpts) -> (ObjSpec, ObjModel) {
             }
             if vm.has_defs {
                 let mut vd = Sec::new(b".gnu.version_d", k::SHT_GNU_VERDEF, vb.verdef.clone());
-                vd.link = verstr as u32;
+                vd.link = defstr as u32;
                 vd.info = vm.defs.len() as u32;
                 spec.add(vd);
             }
